@@ -2,9 +2,9 @@ CONSTANTS
   EUnits = {"int", "1/cm", "nm"}
   LUnits = {"nm"}
   Routines = {"convert", "build", "noop"}
-  Raising = {"convert", "set_rwa", "noop", "build"}
+  Raising = {"convert", "set_rwa", "noop"}
   MaxPool = 1
-  BackupAt = "enter"
+  BackupAt = "init"
   MaxCtx = 2
   MaxSteps = 12
 SPECIFICATION Spec
